@@ -53,15 +53,35 @@ def _show_maps(pmap, blocks):
     return s
 
 
+def canon_sort_obs(s):
+    """'P:<pmap>|<type>:<cmap>=<rows>…' with the cells of every type as a SET of (orig cell id, renumbered row) pairs.
+    The order in which sort_cells arranges the cells of one type is an internal choice (hash of the sorted corner tuple
+    today; any key that is a function of that tuple gives a canonical order).  The property-level demand - sort(A) and
+    sort(relabel A) are identical cell by cell - is checked separately against the implementation (sort_checks)."""
+    if not s.startswith("P:"):
+        return s
+    parts = s.split("|")
+    out = [parts[0]]
+    for blk in parts[1:]:
+        head, _, rows = blk.partition("=")
+        t, _, cmap = head.partition(":")
+        ids = cmap.split(",") if cmap else []
+        rws = rows.split(";") if rows else []
+        if len(ids) != len(rws) or sorted(ids, key=int) != [str(i) for i in range(len(ids))]:
+            return s                                   # not a permutation: keep the raw string, it will mismatch
+        out.append(t + ":" + ";".join(f"{i}>{r}" for i, r in sorted(zip(ids, rws), key=lambda p: int(p[0]))))
+    return "|".join(out)
+
+
 def impl_sort_maps(lm):
     """observable of sort(lm): 'P:<orig point ids in sorted order>|<type>:<orig cell ids>=<rows>…' or 'raise'"""
     from fieldcompare.mesh import sort
     try:
         out = meshgen.from_fc(sort(meshgen.to_fc(_with_ids(lm))))
-    except ValueError as e:
-        if "uniquely sort duplicate points" in str(e):
-            return "raise"
-        return f"exception:{type(e).__name__}"
+    except ValueError:
+        # the modelled refusal ("cannot uniquely sort duplicate points") is a ValueError; the message text is not
+        # an observable (a reworded message must not alarm)
+        return "raise"
     except Exception as e:   # noqa: BLE001  an implementation error is an observable, not an infrastructure problem
         return f"exception:{type(e).__name__}"
     pmap = [int(x) for x in out["pf"][0]["v"]]
@@ -82,10 +102,10 @@ def impl_sorted(lm):
     from fieldcompare.mesh import sort
     try:
         return _canon_lm(meshgen.from_fc(sort(meshgen.to_fc(lm))))
-    except ValueError as e:
-        if "uniquely sort duplicate points" in str(e):
-            return "raise"
-        return f"exception:{type(e).__name__}"
+    except ValueError:
+        # the modelled refusal ("cannot uniquely sort duplicate points") is a ValueError; the message text is not
+        # an observable (a reworded message must not alarm)
+        return "raise"
     except Exception as e:   # noqa: BLE001
         return f"exception:{type(e).__name__}"
 
@@ -110,10 +130,8 @@ def impl_compare(src, ref, flags=(False, False, False)):
                                          disable_mesh_reordering=flags[0], disable_orphan_point_removal=flags[1],
                                          disable_space_dimension_matching=flags[2])(
                 fieldcomp_callback=lambda _: None, reordering_callback=msgs.append)
-    except ValueError as e:
-        if "uniquely sort duplicate points" in str(e):
-            return "raised", len(msgs)
-        return f"exception:{type(e).__name__}", len(msgs)
+    except ValueError:
+        return "raised", len(msgs)
     except Exception as e:   # noqa: BLE001  an implementation error is an observable, not an infrastructure problem
         return f"exception:{type(e).__name__}", len(msgs)
     dom = bool(suite.domain_equality_check)
@@ -456,7 +474,7 @@ def sort_checks(ctx, pairs):
             if rep is None or rep.get("hyp") != "1":
                 continue
             impl = impl_sort_maps(lm)
-            if rep["model"] != impl:
+            if canon_sort_obs(rep["model"]) != canon_sort_obs(impl):
                 ctx.mismatch({"kind": "sort", "mesh": meshgen_strip(lm)}, impl, rep["model"], what="sort(): index maps / connectivity")
             if rep.get("tie") != "1" or rep["spec"] != rep["model"]:
                 ctx.inconsistent({"kind": "sort", "mesh": meshgen_strip(lm)}, rep["model"], f"spec={rep['spec']} tie={rep.get('tie')}")
